@@ -1052,6 +1052,15 @@ class Verifier:
             elif k.startswith("yield:"):
                 if k not in yields:
                     lost.add(k)
+            elif k.startswith("skip:"):
+                kinds = set()
+                for n in ast.walk(node):
+                    if isinstance(n, (ast.While, ast.For)):
+                        for m in ast.walk(n):
+                            if isinstance(m, ast.Continue):
+                                kinds.add("skip:" + ("while" if isinstance(n, ast.While) else "for"))
+                if k not in kinds:
+                    lost.add(k)
             else:
                 base = k.split("@")[0]
                 if base not in assigned and getattr(self, "renames", {}).get(base) not in assigned:
